@@ -963,6 +963,10 @@ class Interp:
     # ------------------------------------------------------------------------------------
     # expressions
     def eval(self, e, env, mod, discard=False):
+        ex = self.ex
+        ex.eval_left -= 1
+        if ex.eval_left < 0:
+            raise FuelExhausted()
         k = e["k"]
         m = getattr(self, "e_" + k, None)
         if m is None:
